@@ -40,6 +40,8 @@ SCHEMA.update({
     'TextualDataType.highlights': 'any',
     'DateTimeDataType.format': 'str',
     'TM.offset': 'str',
+    'DateTime.hour': 'int',
+    'DateTime.minute': 'int',
     'TM.microsec_precision': 'int',
     # MLLP
     'MLLPRequestHandler.sb': 'bytes',
